@@ -56,6 +56,11 @@ def c02(tier: str) -> list[dict[str, Any]]:
         plan("G3 two leaves, one failure", trav.menu("G3"), m, K=1, statuses=["PASS", "ERROR"], max_nonpass=1, pool_fixed=DEEP),
         plan("G5 worker whose restrictions exclude the test", trav.menu("G5"), m, K=1, statuses=["PASS", "FAIL"], max_nonpass=1),
         plan("G1 dry run", trav.menu("G1", params={"dry_run": "yes"}, label="G1-dry"), m, K=1, statuses=["PASS"]),
+        plan("G1 1 worker, no result is ever reported", trav.menu("G1x1", label="G1x1-noresult"), m, K=1, statuses=["NONE"], max_nonpass=99, pool_fixed=DEEP),
+        plan("G1 2 workers, no result is ever reported, retries", trav.menu("G1", params={"max_tries": "2"}, label="G1-noresult"), m, K=1, statuses=["NONE"], max_nonpass=99, pool_fixed=DEEP),
+        plan("virtual time: tests may hang past their timeout, explicit concurrency limit", trav.menu("G1", params={"test_timeout": "1", "max_tries": "2", "max_concurrent_tries": "1", "stop_status": "pass"}, label="G1-overrun-mct1"), m, timed=True, overrun=5.0, statuses=["PASS"], pool_fixed=DEEP,
+             bounds={"time": "every execution lasts a symbolic real duration in (0, 5 x test_timeout): a waiting worker may exhaust its wait budget (test_timeout x max_tries) and join in"}),
+        plan("virtual time: tests may hang past their timeout, defaults", trav.menu("G1", params={"test_timeout": "1"}, label="G1-overrun"), m, timed=True, overrun=3.0, statuses=["PASS"], pool_fixed=DEEP),
     ]
     if tier == "thorough":
         out += [
